@@ -97,7 +97,7 @@ CLAIMED = {
         technique="machine-checked proof in Coq + checked model-code correspondence on torn crash images",
     ),
     "C08": dict(
-        text="Coq theorems on the write path under a failing write-ahead log append (Faults.v: apply_changes after the repair of D4 with the sticky bad-state flag; a failing append may leave ANY prefix of the record in the file), for all runs, all fault positions and all prefix lengths: results are Ok up to the first failure and errors from then on (reported, sticky); what reads see is exactly the acknowledged batches; after the fault is gone and the log is recovered the contents are the acknowledged batches followed by the failed batch wholly or not at all (exactly characterised by whether the whole emission reached the file); sequence numbers handed out after the reopen are fresh. The protocol-level theorems of C02 (Proto.v) add: every crash point of flush, manifest append, CURRENT switch and garbage collection recovers the acknowledged batches. Tied to the code by (wfault) failing log appends that let 0, a few, thousands of bytes through on real databases, comparing results, scans, the exact log bytes and the reopened contents with the extracted model, and by (fault) every call position of every file-system call class x transient/sticky on whole histories, judged against the specification.",
+        text="Coq theorems on the write path under a failing write-ahead log append (Faults.v: apply_changes after the repair of D4 with the sticky bad-state flag; a failing append may leave ANY prefix of the record in the file), for all runs, all fault positions and all prefix lengths: results are Ok up to the first failure and errors from then on (reported, sticky); what reads see is exactly the acknowledged batches; after the fault is gone and the log is recovered the contents are the acknowledged batches followed by the failed batch wholly or not at all (exactly characterised by whether the whole emission reached the file); sequence numbers handed out after the reopen are fresh. For every other step (table write, manifest append, CURRENT switch through the temp file, file removal) a failing call leaves a prefix of the step's file operations applied, i.e. a crash image of the step: every such image recovers exactly the acknowledged batches and recovery from it re-establishes the invariant (C08_fault_*_step_crashed, C08_fault_open_step_crashed; the theorems of C02 restated for faults). Tied to the code by (wfault) failing log appends that let 0, a few, thousands of bytes through on real databases, comparing results, scans, the exact log bytes and the reopened contents with the extracted model, and by (fault) every call position of every file-system call class x transient/sticky on whole histories, judged against the specification.",
         note="Failures of table writes, manifest appends, the CURRENT switch and file removal are covered by the fault suite (every position) and, for the durable side, by the crash-safety theorem of the protocol model (a failed call leaves a prefix of the operations applied), but the in-memory error handling of those paths (bad-state flag set by the background thread, retries) is exercised, not modelled.",
         design="6 / C08, 0.10",
         technique="machine-checked proof in Coq (induction over the run; crash atomicity of the log for the partial append) + checked model-code correspondence under injected faults",
